@@ -10,11 +10,11 @@ PROPERTY_GROUPS = {
     'C09': ['timing', 'rep', 'dt', 'errors', 'xml', 'mps'],
     'C10': ['drm', 'mp4', 'playready'],
     'C11': ['playready', 'mp4', 'drm', 'clearkey', 'xml'],
-    'C12': ['mps'],
+    'C12': ['mps', 'lookup'],
     'C13': ['httprange', 'rep'],
     'C14': ['events', 'scte35', 'mp4'],
     'C15': ['auth'],
-    'C16': ['events', 'bufreader', 'httprange', 'rep', 'timing', 'mps', 'errors', 'mp4', 'load', 'timesource'],
+    'C16': ['events', 'bufreader', 'httprange', 'rep', 'timing', 'mps', 'errors', 'mp4', 'load', 'timesource', 'lookup'],
     'C19': ['dt'],
     'C20': ['bufreader'],
 }
